@@ -370,7 +370,8 @@ func c16Alphabet(composite bool) []c16Op {
 		}
 		ops = append(ops, c16Op{Kind: "emit", Key: []any{1.0, "x"}}, c16Op{Kind: "emit", Key: []any{1, nil}},
 			c16Op{Kind: "upsert", Key: []any{1, "x"}}, c16Op{Kind: "upsert", Key: []any{"1", "x"}}, c16Op{Kind: "upsert", Key: []any{1, "y"}},
-			c16Op{Kind: "delete", Key: []any{1.0, "x"}}, c16Op{Kind: "delete", Key: []any{"1", "x"}})
+			c16Op{Kind: "delete", Key: []any{1.0, "x"}}, c16Op{Kind: "delete", Key: []any{"1", "x"}},
+			c16Op{Kind: "upsert-narrow", Key: []any{1, "x"}})
 		return ops
 	}
 	var ops []c16Op
@@ -383,6 +384,8 @@ func c16Alphabet(composite bool) []c16Op {
 	for _, k := range []any{1.0, "1", 2, 1000000.0} {
 		ops = append(ops, c16Op{Kind: "delete", Key: []any{k}})
 	}
+	// a replacing row that no longer carries the joined column (the table row is replaced, not merged)
+	ops = append(ops, c16Op{Kind: "upsert-narrow", Key: []any{1.0}})
 	return ops
 }
 
@@ -411,6 +414,9 @@ type c16Out struct {
 }
 
 // c16Run executes the ops on the real engine (sequentially, EmitSync) and on the reference.
+// c16NoLoc: the reference's mark for a table row that exists but has no loc column
+const c16NoLoc = "\x00no-loc"
+
 func c16Run(cfg c16Cfg, init []Row, ops []c16Op) (got, want []*c16Out, execErr string, st sched.Status, pv string) {
 	table := map[string]string{}
 	for _, r := range init {
@@ -462,6 +468,8 @@ func c16Run(cfg c16Cfg, init []Row, ops []c16Op) (got, want []*c16Out, execErr s
 				k, ok := c16KeyOf(cfg, op.Key)
 				loc, match := table[k]
 				switch {
+				case ok && match && loc == c16NoLoc:
+					w = &c16Out{ID: i + 1, Loc: nil}
 				case ok && match:
 					w = &c16Out{ID: i + 1, Loc: loc}
 				case cfg.Left:
@@ -478,6 +486,17 @@ func c16Run(cfg c16Cfg, init []Row, ops []c16Op) (got, want []*c16Out, execErr s
 				}
 				if k, ok := c16KeyOf(cfg, op.Key); ok {
 					table[k] = fmt.Sprintf("U%d", i+1)
+				}
+			case "upsert-narrow":
+				row := Row{"owner": fmt.Sprintf("O%d", i+1)}
+				for j, f := range cfg.Keys {
+					row[f] = op.Key[j]
+				}
+				if err := s.UpsertTable("meta", row); err != nil {
+					execErr = "UpsertTable: " + err.Error()
+				}
+				if k, ok := c16KeyOf(cfg, op.Key); ok {
+					table[k] = c16NoLoc
 				}
 			case "delete":
 				if len(op.Key) == 1 {
